@@ -43,6 +43,8 @@
 (*   parentheses that only group are not nodes                             *)
 (*   if ( e )         "(" has operand1 = if, operand2 = e                  *)
 (*   return e         "return" has operand1 = e                            *)
+(*   int z = e        "=" has operand1 = z, operand2 = e  (the tokenizer    *)
+(*                    splits the declaration into  int z ; z = e ;)        *)
 (***************************************************************************)
 EXTENDS Integers, Sequences, FiniteSets, TLC, Json, IOUtils, SequencesExt, Randomization
 
@@ -61,6 +63,7 @@ SzE(x)         == [k |-> "szE",  x |-> x]
 SzT(ty)        == [k |-> "szT",  ty |-> ty]
 If(x)          == [k |-> "if",   x |-> x]                        \* statement forms: only at the root
 Ret(x)         == [k |-> "ret",  x |-> x]
+Init(x)        == [k |-> "init", x |-> x]                        \* int z = x
 
 (***************************************************************************)
 (* The operator table.  Levels as in the ISO grammars (higher binds        *)
@@ -198,6 +201,9 @@ Lay(t, cpp) ==
     [] t.k = "ret" ->
          LET X == Move(Lay(t.x, cpp), 1)
          IN  [toks |-> <<"return">> \o X.toks, root |-> 1, edges |-> X.edges \cup {<<1, X.root, 0>>}, opt |-> X.opt]
+    [] t.k = "init" ->
+         LET X == Move(Child(t.x, 2, cpp), 3)                              \* initializer: an assignment-expression
+         IN  [toks |-> <<"int", "z", "=">> \o X.toks, root |-> 3, edges |-> X.edges \cup {<<3, 2, X.root>>}, opt |-> X.opt]
 
 PrintExpr(t, cpp) == Lay(t, cpp).toks
 Ast(t, cpp)   == Lay(t, cpp).edges
@@ -283,10 +289,11 @@ PArgs(ts, i, acc, cpp) ==
   LET a == PLevel(ts, i, 2, cpp)
   IN  IF At(ts, a.i) = "," THEN PArgs(ts, a.i + 1, Append(acc, a.t), cpp) ELSE R(Append(acc, a.t), a.i)
 
-\* a statement of the test programs: if ( e ) | return e | e      (the renderer appends "{ }" / ";")
+\* a statement of the test programs: if ( e ) | return e | int z = e | e      (the renderer appends "{ }" / ";")
 Parse(ts, cpp) ==
   IF At(ts, 1) = "if" /\ At(ts, 2) = "(" THEN LET e == PLevel(ts, 3, 1, cpp) IN R(If(e.t), e.i + 1)
   ELSE IF At(ts, 1) = "return" THEN LET e == PLevel(ts, 2, 1, cpp) IN R(Ret(e.t), e.i)
+  ELSE IF At(ts, 1) \in TypeNames /\ At(ts, 3) = "=" THEN LET e == PLevel(ts, 4, 2, cpp) IN R(Init(e.t), e.i)
   ELSE PLevel(ts, 1, 1, cpp)
 
 ParsesBack(t, cpp) == LET ts == PrintExpr(t, cpp)  r == Parse(ts, cpp) IN r.t = t /\ r.i = Len(ts) + 1
@@ -354,6 +361,7 @@ TR(pf, sort, n, root) ==
 (***************************************************************************)
 (* Statements.  Every expression e of sort int is placed as                *)
 (*    x = e ;     if ( e ) { }     return e ;     f ( e , 1 ) ;            *)
+(*    int z = e ;                                                          *)
 (* and every pointer expression as  y = e ;  (int x; int *y;).             *)
 (* The statement is itself a tree, so Print / Ast / Parse apply to it.     *)
 (***************************************************************************)
@@ -362,6 +370,7 @@ StmtsOf(e, sort, ctxs) ==
   ELSE (IF "asg" \in ctxs THEN {Bin("=", Leaf("x"), e)} ELSE {})
        \cup (IF "if" \in ctxs THEN {If(e)} ELSE {})
        \cup (IF "ret" \in ctxs THEN {Ret(e)} ELSE {})
+       \cup (IF "init" \in ctxs THEN {Init(e)} ELSE {})
        \cup (IF "arg" \in ctxs THEN {Call(Leaf("f"), <<e, Leaf("1")>>)} ELSE {})
 
 Stmts(pf, n, ctxs, root) == UNION {StmtsOf(e, "I", ctxs) : e \in TR(pf, "L", n, root) \cup TR(pf, "I", n, root)}
@@ -382,7 +391,7 @@ RECURSIVE Subs(_)
 Subs(t) == CASE t.k = "leaf" -> (IF t.s \in {"s", "q", "f", "m"} THEN {} ELSE {t})
              [] t.k = "bin" -> (IF t.op \in {".", "->"} THEN {t} ELSE {t} \cup Subs(t.x) \cup Subs(t.y))
              [] t.k \in {"pre", "post", "cast", "szE"} -> {t} \cup Subs(t.x)
-             [] t.k \in {"if", "ret"} -> Subs(t.x)
+             [] t.k \in {"if", "ret", "init"} -> Subs(t.x)
              [] t.k = "cond" -> {t} \cup Subs(t.c) \cup Subs(t.x) \cup Subs(t.y)
              [] t.k = "sub" -> {t} \cup Subs(t.x) \cup Subs(t.i)
              [] t.k = "call" -> {t} \cup UNION {Subs(t.args[i]) : i \in DOMAIN t.args}
@@ -405,7 +414,7 @@ UnaryChains(pf) ==
 RECURSIVE Size(_)
 Size(t) == CASE t.k = "leaf" -> 0 [] t.k = "szT" -> 1
              [] t.k = "bin" -> 1 + Size(t.x) + Size(t.y)
-             [] t.k \in {"pre", "post", "cast", "szE", "if", "ret"} -> 1 + Size(t.x)
+             [] t.k \in {"pre", "post", "cast", "szE", "if", "ret", "init"} -> 1 + Size(t.x)
              [] t.k = "cond" -> 1 + Size(t.c) + Size(t.x) + Size(t.y)
              [] t.k = "sub" -> 1 + Size(t.x) + Size(t.i)
              [] t.k = "call" -> 1 + Size(t.f) + (IF t.args = <<>> THEN 0 ELSE IF Len(t.args) = 1 THEN Size(t.args[1]) ELSE Size(t.args[1]) + Size(t.args[2]))
